@@ -390,6 +390,13 @@ func (r *Registry) Unregister(c Collector) bool {
 	r.mtx.Lock()
 	defer r.mtx.Unlock()
 
+	// Re-check under the write lock: the collector may have been
+	// unregistered (and its descriptor IDs taken by another collector) since
+	// the read lock was released.
+	if _, exists := r.collectorsByID[collectorID]; !exists {
+		return false
+	}
+
 	delete(r.collectorsByID, collectorID)
 	for id := range descIDs {
 		delete(r.descIDs, id)
